@@ -539,6 +539,11 @@ func (p *Prog) nilnessAt(b *ssa.BasicBlock, v ssa.Value, depth int) nilness {
 			if d != x {
 				return p.nilnessAt(b, d, depth)
 			}
+			// results spilled because of defer, variables assigned on several paths: the
+			// store that reaches this load
+			if st := reachingStore(x); st != nil && depth < 6 {
+				return p.nilnessAt(st.Block(), st.Val, depth+1)
+			}
 		}
 	case *ssa.Phi:
 		if depth > 3 {
